@@ -314,7 +314,7 @@ func main() {
 		}
 	}
 	r := run.Rand
-	nRandom := run.Scale(20000, 400000)
+	nRandom := run.Scale(20000, 1500000)
 	for i := 0; i < nRandom; i++ {
 		s := randomValid(r)
 		k := r.Intn(4)
@@ -322,6 +322,9 @@ func main() {
 			s = mutate(r, s)
 		}
 		parseCase(s)
+	}
+	for i := 0; i < run.Scale(30000, 1500000); i++ {
+		constructedCase(r)
 	}
 	// tag length boundary
 	for _, n := range []int{1, 2, 127, 128, 129, 130, 200} {
@@ -339,13 +342,13 @@ func main() {
 
 	// components on their own: repository rule exhaustively over its own alphabet, digests
 	// with random mixed hex and algorithm names, tags around the length bound
-	repoLen := run.Scale(7, 9)
+	repoLen := run.Scale(7, 8)
 	enumerate([]string{"a", "0", ".", "_", "-", "/"}, repoLen, func(s string) { componentCase("repo", s) })
 	run.Extra["repository_exhaustive_length"] = repoLen
 	for _, s := range []string{"A", "a b", "a:b", "a@b", "a\x00", "\xc3\xa9", "a/b/c/d/e", "a--__b", "a__--b", "a_-b", "a._b", "a-.b", "a___b", strings.Repeat("a", 300)} {
 		componentCase("repo", s)
 	}
-	for i := 0; i < run.Scale(20000, 300000); i++ {
+	for i := 0; i < run.Scale(20000, 1000000); i++ {
 		d := randDigest(r)
 		if r.Chance(1, 5) {
 			d = mutate(r, d)
@@ -395,7 +398,7 @@ func main() {
 	}
 	for _, base := range bases {
 		enumerate(alphabet, run.Scale(3, 4), func(s string) { repoCase(base, s) })
-		for i := 0; i < run.Scale(3000, 60000); i++ {
+		for i := 0; i < run.Scale(3000, 150000); i++ {
 			var s string
 			switch r.Intn(8) {
 			case 0:
@@ -442,7 +445,7 @@ func main() {
 			}
 			opForms(base, tag, randDigestValid(r))
 		}
-		for i := 0; i < run.Scale(1500, 30000); i++ {
+		for i := 0; i < run.Scale(1500, 80000); i++ {
 			var s string
 			switch r.Intn(8) {
 			case 0:
@@ -474,7 +477,7 @@ func main() {
 		if err != nil {
 			continue
 		}
-		kinds := []string{"manifest", "blob", "referrers", "taglist", "upload"}
+		kinds := []string{"manifest", "blob", "referrers", "taglist", "upload", "base", "catalog", "repobase"}
 		urlCase(common.Pick(r, kinds), r.Bool(), ref)
 	}
 	queryURLCases(r)
@@ -485,11 +488,11 @@ func main() {
 // broken run (layer R), not a pass.  The floors are far below what every seed produces.
 func coverageFloors() {
 	floors := map[string]int{
-		"parse_ok": 2000, "parse_judged_accept": 1500, "parse_judged_reject": 50000, "repo_ok": 2000, "repo_err": 5000,
+		"constructed": 20000, "constructed_accept": 5000, "parse_ok": 2000, "parse_judged_accept": 1500, "parse_judged_reject": 50000, "repo_ok": 2000, "repo_err": 5000,
 		"repo_other_path_rejected": 3000, "component_repo_ok": 5000, "component_digest_ok": 3000, "component_tag_ok": 500,
 		"op_mresolve": 500, "op_mfetchref": 500, "op_tag": 500, "op_pushref": 500, "op_bresolve": 500, "op_bfetchref": 500,
 		"op_sent": 3000, "op_refused": 3000, "op_ground_truth": 500,
-		"url_manifest": 100, "url_blob": 100, "url_referrers": 100, "url_taglist": 100, "url_upload": 100,
+		"url_manifest": 100, "url_blob": 100, "url_referrers": 100, "url_taglist": 100, "url_upload": 100, "url_base": 100, "url_catalog": 100, "url_repobase": 100,
 		"url_query_referrers": 100, "url_query_mount": 100,
 	}
 	for v := 0; v < 8; v++ {
